@@ -737,6 +737,10 @@ func (tic *TermInCommittee) validateViewChangeVotes(targetBlockHeight primitives
 			return fmt.Errorf("confirmation of memberId %s has view %d which is different than targetView %d ",
 				senderMemberIdStr, confirmationView, targetView)
 		}
+		if confirmation.SignedHeader().MessageType() != protocol.LEAN_HELIX_VIEW_CHANGE {
+			// a PREPARE or COMMIT has the wire layout of a vote: what this member signed is not a VIEW_CHANGE
+			return fmt.Errorf("confirmation of memberId %s declares message type %s", senderMemberIdStr, confirmation.SignedHeader().MessageType())
+		}
 		if set[senderMemberIdStr] {
 			return fmt.Errorf("memberId %s appears in more than one confirmation", senderMemberIdStr)
 		}
